@@ -8,7 +8,8 @@ TOL = 1e-12
 
 def api_delta(seq):
     from localcider.sequenceParameters import SequenceParameters
-    return core.sp(seq).get_delta()
+    with core.istate(seq):
+        return core.sp(seq).get_delta()
 
 
 def check_case(case, acc=None):
